@@ -51,7 +51,7 @@ func (i *Ignore) load(rootGoitPath string) error {
 		}
 		var replacedText string
 		if directoryRegexp.MatchString(text) {
-			replacedText = fmt.Sprintf("%s.*", text)
+			replacedText = fmt.Sprintf("%s.*", strings.ReplaceAll(text, ".", `\.`))
 		} else {
 			replacedText = strings.ReplaceAll(text, ".", `\.`)
 			replacedText = strings.ReplaceAll(replacedText, "*", ".*")
